@@ -265,6 +265,9 @@ pub struct StepS {
 }
 #[derive(Serialize, Deserialize, Clone, Debug, PartialEq, Eq)]
 pub struct Spec {
+    /// which exchange-id table the instruments' `ex` indexes (see `EXSETS`)
+    #[serde(default)]
+    pub exset: u8,
     pub trading: bool,
     pub links: Vec<LinkS>,
     pub instruments: Vec<InstS>,
@@ -468,16 +471,19 @@ fn ms_of(t: DateTime<Utc>) -> i64 {
 
 /// exchanges an instrument can live on; the index builder sorts by the enum order, so this table
 /// is in enum order and `InstS::ex = k` becomes ExchangeIndex(k) when 0..k are all in use
-pub const EXCHANGES: [ExchangeId; 6] = [
-    ExchangeId::Simulated,
-    ExchangeId::Mock,
-    ExchangeId::BinanceSpot,
-    ExchangeId::Bitvavo,
-    ExchangeId::Bithumb,
-    ExchangeId::Kraken,
+/// Each table is in enum DECLARATION order (so `InstS::ex = k` becomes ExchangeIndex(k) when 0..k are
+/// all in use) while its NAME order differs: {Simulated, Mock, BinanceSpot}, {Mock, BinanceSpot},
+/// {Bitstamp, Bitvavo, Bithumb, .., Okx} ...
+pub const EXSETS: [[ExchangeId; 6]; 3] = [
+    [ExchangeId::Simulated, ExchangeId::Mock, ExchangeId::BinanceSpot, ExchangeId::Bitvavo, ExchangeId::Bithumb, ExchangeId::Kraken],
+    [ExchangeId::Mock, ExchangeId::BinanceSpot, ExchangeId::Bitstamp, ExchangeId::Bithumb, ExchangeId::Kraken, ExchangeId::Okx],
+    [ExchangeId::Bitstamp, ExchangeId::Bithumb, ExchangeId::Okx, ExchangeId::Poloniex, ExchangeId::Poloniex, ExchangeId::Poloniex],
 ];
 /// ids for link-map entries beyond the engine's exchanges
-const SPARE: [ExchangeId; 4] = [ExchangeId::Other, ExchangeId::Okx, ExchangeId::Gemini, ExchangeId::Htx];
+const SPARE: [ExchangeId; 4] = [ExchangeId::Other, ExchangeId::Gemini, ExchangeId::Htx, ExchangeId::Deribit];
+/// receive latencies (ns) of market events: none, tiny, sub-ms, larger than any gap between events,
+/// and received BEFORE the exchange time; the engine must use time_exchange only
+const LATENCIES: [i64; 10] = [0, 1, 999, 250_000, 1_000_000, 5_000_000_000, 100_000_000_000_000, 17, 0, -2_000_000];
 
 fn side_of(buy: bool) -> Side {
     if buy { Side::Buy } else { Side::Sell }
@@ -631,7 +637,7 @@ fn l1_of(l: &L1S) -> OrderBookL1 {
     }
 }
 
-fn event_of(ev: &EvS, eng: &Eng, many1: bool) -> EngineEvent<DataKind> {
+fn event_of(ev: &EvS, eng: &Eng, many1: bool, step: usize) -> EngineEvent<DataKind> {
     let first_exchange = *eng.state.connectivity.exchange_ids().next().expect("an exchange");
     let n_ex = eng.state.connectivity.exchanges.len();
     let acct = |ex: usize, kind: AccountEventKind<ExchangeIndex, AssetIndex, InstrumentIndex>| {
@@ -653,7 +659,7 @@ fn event_of(ev: &EvS, eng: &Eng, many1: bool) -> EngineEvent<DataKind> {
         EngineEvent::Market(MarketStreamEvent::Item(MarketEvent {
             time_exchange: time_of(t),
             // decoy: the engine must use time_exchange
-            time_received: time_of(t + 5_000_000_000),
+            time_received: time_of(t + LATENCIES[(step + inst + (t.rem_euclid(7) as usize)) % LATENCIES.len()]),
             exchange,
             instrument: InstrumentIndex(inst),
             kind,
@@ -795,7 +801,7 @@ pub fn build(spec: &Spec) -> Built {
             }),
         };
         bld = bld.add_instrument(Instrument::new(
-            EXCHANGES[i.ex % EXCHANGES.len()],
+            EXSETS[(spec.exset % 3) as usize][i.ex % 6],
             format!("x{}_i{:02}", i.ex, j),
             format!("X{}I{:02}", i.ex, j),
             Underlying::new(i.base.as_str(), i.quote.as_str()),
@@ -1344,7 +1350,7 @@ pub fn run(spec: &Spec) -> Ran {
     if spec.links.len() >= 3 && spec.links[1..spec.links.len() - 1].iter().any(|l| *l == LinkS::Missing) {
         tags.push("linkless_exchange_in_the_middle".into());
     }
-    for st in &spec.steps {
+    for (step_idx, st) in spec.steps.iter().enumerate() {
         install(&mut bt.eng, st);
         tags.push(op_tag(&st.op));
         if st.many1 {
@@ -1384,7 +1390,7 @@ pub fn run(spec: &Spec) -> Ran {
                         tags.push(t)
                     }
                 }
-                let event = event_of(ev, &bt.eng, st.many1);
+                let event = event_of(ev, &bt.eng, st.many1, step_idx);
                 let eng = &mut bt.eng;
                 let out = vh_common::catch(std::panic::AssertUnwindSafe(|| eng.process(event)));
                 match out {
